@@ -15,7 +15,10 @@ import (
 )
 
 func readRules(input io.Reader) ([]rule, error) {
-	rules := defaultExclusions
+	// Start from a copy of the default rules: the negation bookkeeping below
+	// modifies the rules it is given, and the defaults are shared by every
+	// ruleset (and every goroutine) in the process.
+	rules := append([]rule(nil), defaultExclusions...)
 	scanner := bufio.NewScanner(input)
 	scanner.Split(bufio.ScanLines)
 	currentRuleIndex := len(defaultExclusions) - 1
